@@ -17,7 +17,7 @@ import sys
 from reactivex import Observable
 
 from .core import HarnessError
-from .lab import BudgetExceeded, Lab, LabTestScheduler, Probe, SpinGuard, _Logged
+from .lab import BudgetExceeded, Lab, LabHistoricalScheduler, LabTestScheduler, Probe, SpinGuard, _Logged
 from .pipes import OPS, Builder
 from .values import Tagged
 
@@ -51,6 +51,20 @@ class TScheduler(LabTestScheduler):
         return super().schedule_absolute(duetime, checked, state)
 
 
+class THistScheduler(LabHistoricalScheduler):
+    """Same spin-bump detection on the datetime clock."""
+
+    def schedule_absolute(self, duetime, action, state=None):
+        due = max(self.to_datetime(duetime), self.to_datetime(self._clock))
+
+        def checked(s, st_=None):
+            if self.to_datetime(self._clock) > due:
+                raise SpinGuard()
+            return action(s, st_)
+
+        return super().schedule_absolute(duetime, checked, state)
+
+
 class TLab(Lab):
     """Lab that records the clock values at which actions ran and aborts runaway synchronous recursion
     before the interpreter's RecursionError (which the library would swallow) can occur."""
@@ -58,9 +72,8 @@ class TLab(Lab):
     def __init__(self, *a, depth_limit=520, **kw):
         kw.setdefault("budget", 5000)
         super().__init__(*a, **kw)
-        if self.clock_kind == "test":
-            self.sched = TScheduler()
-            self.sched._lab = self
+        self.sched = TScheduler() if self.clock_kind == "test" else THistScheduler()
+        self.sched._lab = self
         self.ticks = set()
         self.depth_limit = depth_limit
         self.action_seq = []  # value of the global seq counter at the start of every scheduled action
